@@ -13,7 +13,7 @@ The theorems are about `Rtsp.Size` (Model/SizeGuard.lean): `Path.sendRtp` / `Pat
 the operating system is handed by each public write entry point, for every maximum, every packet
 shape, every MKI length, UDP and TCP.  `|mki|` is explicit everywhere: `ctx = some m` is an
 outbound SRTP context whose MKI has `m` bytes.  The client subtracts `m` from its plain-size limit
-(since fix 4f36b4b; fact `clientRtpCountsMki`); the server paths do not, and are correct only because
+(since fix 5e4f036; fact `clientRtpCountsMki`); the server paths do not, and are correct only because
 server-made contexts never carry an MKI (`Path.mkiOk`, facts `sessionOutMkiSites = 0`,
 `streamOutMkiSites = 0`) — `mki_ignored_overflows` shows what happens otherwise.
 -/
@@ -211,7 +211,7 @@ theorem rtpMarshalSize_eq (p : RtpShape) :
 /-- **A path that ignores a non-empty MKI overflows**: with the server-style limit
 (`MaxPacketSize - srtpOverhead`) and a context carrying the Axis MKI (`mkiLength` = 4 bytes), a packet
 at the limit leaves 4 bytes too large, and over TCP its frame announces `max + 4` bytes while only
-`max` are written.  This is what the client did before fix 4f36b4b, and what any server path would do
+`max` are written.  This is what the client did before fix 5e4f036, and what any server path would do
 if a server-made context ever carried an MKI. -/
 theorem mki_ignored_overflows (max : Nat) (hmax : 22 ≤ max) :
     ∃ p : RtpShape, wellFormed p = true ∧
